@@ -66,7 +66,7 @@ ROWS = {
          "b64 (exhaustive 1-/2-byte tails, quanta sample, random strings to 4096, malformed edits incl. bytes ≥ 0xF0, both option orders)", "buffer-IR translator and interpreter; int wrap of EncodedLen beyond 2^60 and negative padding runes are outside the hand model's domain (the programs cover them)"),
  "C17": ("enc_chunks_eq_oneshot ∀ chunkings; dec_fragmentation_eq_oneshot ∀ fragmentations; enc_fault_prefix_sticky, dec_err_sticky; SIR.encoderWrite/encoderClose/decoderRead/nfrRead_ir_eq_model: the regenerated Write/Close/Read bodies = the stream model for every state, chunk and script", "T: encoder.Write/Close, NewEncoder, decoder.Read, newlineFilteringReader.Read, NewDecoder (stream IR over an object store; io.Reader/io.Writer as scripted external objects)",
          "stream (all compositions ≤ 9, random chunkings, caller buffers 1..4096, every fault position × kind)", "stream-IR translator and interpreter; the reader script must eventually report an error (Live): a reader answering (0, nil) forever makes Go's refill loop spin and is outside C17's fault kinds"),
- "C18": ("history_independent (getTypeInfo's result = cold-cache result for ALL call histories), forms_agree, reports_own_struct, invalid_tags_every_call; TypeInfoIR.getTypeInfo_cold_eq_typeInfoOf: the cold path regenerated from source = typeInfoOf", "T: cold path of getTypeInfo, normalize, getRawTypeInfo · measured facts (hook) · H: cache protocol",
+ "C18": ("history_independent (getTypeInfo's result = cold-cache result for ALL call histories), forms_agree, reports_own_struct, invalid_tags_every_call; TypeCacheIR.getTypeInfo_eq_model, history_represents_runHistory, returned_record_is_private, entries_are_keyed_by_dereferenced_type, interleaved_calls_return_the_cold_result (the regenerated getTypeInfo)", "T: the whole of getTypeInfo, warm and cold path, typeCache.Load/LoadOrStore as atomic steps of a cache state (TypeCacheIR: = TypeCache.getTypeInfo call by call and over every history; private copy and keying PROVED on the regenerated code, also measured through the hook), normalize, getRawTypeInfo",
          "cache (histories over named types; fresh-type, invalid-tag, shared-embedding and prefix-embedding families vs cold siblings; pointer-receiver codec in T/*T/**T)", "reflect"),
  "C19": ("secretSafe'_⟨S⟩ decided on the regenerated flow IR of every Check; secretSafe'_sound, mismatch_cost_independent_of_position/_of_key (cost semantics), ⟨S⟩_mismatch_cost", "T: flow IR",
          "flowcheck (names the offending statement)", "statement translator; machine-level constant time of subtle/encoders"),
@@ -185,9 +185,10 @@ functions or adding comments leaves the programs unchanged (checked for each tra
 | `des/descrypt/des.go`: `permute816`, `permute1616`, `keySchedules`, `Encrypt` | DES IR (tables by name from the regenerated `Gen/Tables`) | `Props/DesIR.lean` (`encrypt_ir_eq_model`, `desPrims_spec`, `*_full`) | C03, C05 |
 | `hash/marshal.go`: `Marshal`, `marshalValue`, `marshal`, `indirect`, `isEmpty` | codec IR (on the type-info IR's heap; `reflect.Value` as operations over a value model) | `Props/CodecIR.lean` (`marshal_eq_model`) | C10, C20 |
 | `internal/hashutil`: `NewEncoding`, `Encode`, `Decode`, `IndexAnyInvalid`, `Rand`, package variables; `cryptoutil.Rand`; `sha1.randRounds` | stream IR + library description `miscLib` (crypto/rand as scripted entropy reader) | `Props/MiscIR.lean` | C15, C05 |
+| `hash/typeinfo.go`: the whole of `getTypeInfo` (warm + cold path; `typeCache.Load`/`LoadOrStore` as atomic steps) | type-info IR with a cache state (`Base/TIIRCache.lean`, conservative over `TIIR`) | `Props/TypeCacheIR.lean` (= `Model/TypeCache.lean` per call and per history; privacy; keying; interleavings) | C18, C08 |
 | constants, DES / permutation / alphabet tables, struct shapes and text codecs, `init` registrations, import / shared-state / goroutine-structure facts, index kernels (`indexAlpha`, `phi`, base64 shift/mask expressions, `randRounds`) | Lean definitions | used directly by the models | all |
 
-Still hand-written (tied by the correspondence suites only): the `Unmarshal` walker (`Model/Codec.lean`, unmarshal half), the warm path of the type cache and the concurrency protocol of the registry (`Model/TypeCache.lean`, `Model/Conc.lean`, tied by measured protocol facts), the text (un)marshalers of the scheme field types (recognised by strict pattern matching in `gogen`), and the hash/cipher primitives that live outside the repository (MD4, MD5, SHA-1/2, Blowfish, BLAKE2b: `Prim/`, validated differentially). Model limits the regenerated proofs exposed (all outside every property's domain, stated as hypotheses of the equality theorems): `decoder.Read` on a reader that answers `(0, nil)` forever (Go spins; the model's fuel runs out silently); `omitempty` on a field of a kind outside the documented ones (bool, float, map, interface …: Go's `isEmpty` knows them and omits an empty one, the model treats the field as rejected); a partially nil pointer chain `**T` (Go writes `p=`, the model reads `.nilPtr` as 'the field itself is nil'); `EncodedLen` beyond 2^60 and negative padding runes other than `NoPadding` (Go wraps / pads with `byte(r)`; the model's `Nat`/`Option UInt8` cannot say it); DES round counts ≥ 2^32 (not expressible by a Go caller).
+Still hand-written (tied by the correspondence suites only): the `Unmarshal` walker beyond its text half and string fields (`Model/Codec.lean`, unmarshal half; the regenerated `Unmarshal` is run against the model on examples), the concurrency protocol of the registry (`Model/Conc.lean`, tied by measured protocol facts and the race detector), the text (un)marshalers of the scheme field types (recognised by strict pattern matching in `gogen`), and the hash/cipher primitives that live outside the repository (MD4, MD5, SHA-1/2, Blowfish, BLAKE2b: `Prim/`, validated differentially). Model limits the regenerated proofs exposed (all outside every property's domain, stated as hypotheses of the equality theorems): `decoder.Read` on a reader that answers `(0, nil)` forever (Go spins; the model's fuel runs out silently); `omitempty` on a field of a kind outside the documented ones (bool, float, map, interface …: Go's `isEmpty` knows them and omits an empty one, the model treats the field as rejected); a partially nil pointer chain `**T` (Go writes `p=`, the model reads `.nilPtr` as 'the field itself is nil'); `EncodedLen` beyond 2^60 and negative padding runes other than `NoPadding` (Go wraps / pads with `byte(r)`; the model's `Nat`/`Option UInt8` cannot say it); DES round counts ≥ 2^32 (not expressible by a Go caller).
 
 ### 0.2 Per property
 
@@ -332,7 +333,7 @@ an unknown node. The interpreters are also run on concrete inputs (`#guard`) aga
 models and, by the agents who wrote them, against the real Go code.
 Correspondence: differential, seeded (`VERIF_SEED`, default 1), with the generator's distribution in
 the evidence. It now covers everything twice where a body is regenerated, and alone ties: the
-`Unmarshal` walker beyond string fields, the warm path of the type cache, the registry's concurrency
+`Unmarshal` walker beyond string fields, the registry's concurrency
 protocol, the text (un)marshalers of the scheme field types.
 Modelled rather than verified, or only executed: `reflect`, `strconv`, `sync.Map`, goroutines /
 channels / WaitGroup, the Go memory model, `crypto/*` and x/crypto primitives (Lean copies in
